@@ -259,6 +259,13 @@ def ite(c, a, b):
         raise Unsupported('ite over objects')
     if isinstance(a, (tuple, list)) and isinstance(b, (tuple, list)) and len(a) == len(b):
         return type(a)(ite(c, x, y) for x, y in zip(a, b))
+    if isinstance(a, TS) and isinstance(b, TS):
+        if a.tz is b.tz or (a.tz is not None and b.tz is not None and z3.is_true(z3.simplify(lift(a.tz) == lift(b.tz)))):
+            return TS(z3.If(to_bool(c), lift(a.t), lift(b.t)), a.tz)
+        raise Unsupported('ite over time stamps of different zones')
+    if isinstance(a, TD) and isinstance(b, TD):
+        da, db = _num_coerce(lift(a.d), lift(b.d))
+        return TD(z3.If(to_bool(c), da, db))
     a, b = lift(a), lift(b)
     if a.sort() != b.sort():
         if a.sort() == Str or b.sort() == Str:
@@ -992,6 +999,12 @@ def invert(a):
 def forall_arr(a, pred=None):
     """all(a): z3 formula  forall i in [0,n): a[i]   (with a readable bound name)."""
     i = z3.Int(fresh_name('q'))
+    if a.comp is not None and concrete_int(a.n) is None:
+        # all(base[mask])  <=>  every selected position of the base satisfies it (sel is a bijection between
+        # [0, cnt) and the positions where the mask holds: consequence of the selection axioms, A2)
+        base, mask = a.comp
+        body = base.f(i) if pred is None else pred(base.f(i))
+        return z3.ForAll([i], z3.Implies(z3.And(i >= 0, i < lift(mask.n), to_bool(mask.f(i))), to_bool(body)))
     body = a.f(i) if pred is None else pred(a.f(i))
     cn = concrete_int(a.n)
     if cn is not None and cn <= 8:
@@ -1001,6 +1014,10 @@ def forall_arr(a, pred=None):
 
 def exists_arr(a, pred=None):
     i = z3.Int(fresh_name('q'))
+    if a.comp is not None and concrete_int(a.n) is None:
+        base, mask = a.comp
+        body = base.f(i) if pred is None else pred(base.f(i))
+        return z3.Exists([i], z3.And(i >= 0, i < lift(mask.n), to_bool(mask.f(i)), to_bool(body)))
     body = a.f(i) if pred is None else pred(a.f(i))
     cn = concrete_int(a.n)
     if cn is not None and cn <= 8:
